@@ -828,6 +828,9 @@ class Interp:
             self.env[name] = v
             self.declared.add(name)
             return
+        if isinstance(v, Arr) and v.kind == "c" and KIND_OF_TYPE.get(vartype) in ("i", "f"):
+            # a whole complex array where an int or a float is declared: a complex value assigned to a real variable
+            raise IllFormed("complex-to-real", name, first.line, first.col)
         if not isinstance(v, V):
             raise OOD("non-scalar initialiser")
         if v.big:
